@@ -131,6 +131,12 @@ def seeded(vc, a):
             print(f"{mid}: patch does not apply: {ap.stderr.strip()[:200]}")
             results[mid] = "patch-stale"
             continue
+        # a run against a changed tree must not leave its evidence file behind: evidence/<id>.json describes
+        # the unchanged tree only
+        saved = {}
+        for chk in checks:
+            ep = os.path.join(ROOT, "evidence", chk + ".json")
+            saved[ep] = open(ep, "rb").read() if os.path.exists(ep) else None
         try:
             caught_by = []
             for chk in checks:
@@ -148,6 +154,13 @@ def seeded(vc, a):
             results[mid] = caught_by
         finally:
             subprocess.run(["git", "-C", "/repo", "checkout", "--", "."], capture_output=True)
+            for ep, data in saved.items():
+                if data is None:
+                    if os.path.exists(ep):
+                        os.remove(ep)
+                else:
+                    with open(ep, "wb") as f:
+                        f.write(data)
             for f in glob.glob(os.path.join(ROOT, "replays", "*.json")):
                 os.remove(f)
     print(json.dumps(results, indent=1))
